@@ -11,7 +11,7 @@ from . import common, gencalls, implrun, irser
 from .c08 import eq
 from .common import sx
 
-KINDS = ["positional", "name_kw", "all_kw", "var_kw", "object", "argindex_kw", "deco_positional", "deco_all_kw", "deco_name_kw"]
+KINDS = ["positional", "name_kw", "all_kw", "var_kw", "object", "object_unhashable", "argindex_kw", "deco_positional", "deco_all_kw", "deco_name_kw"]
 
 
 def _deco(f):
@@ -76,6 +76,20 @@ class Recorder:
                 rec.calls.append((shape, {"name": name}))
                 return rec.result(shape)
 
+        class ObjEq:
+            """a callable object that defines equality and therefore is not hashable (a plain dataclass initialiser)"""
+            def __init__(self, tag):
+                self.tag = tag
+
+            def __eq__(self, other):
+                return isinstance(other, ObjEq) and self.tag == other.tag
+
+            def __call__(self, shape, name="x"):
+                rec.calls.append((shape, {"name": name}))
+                return rec.result(shape)
+
+        if self.kind == "object_unhashable":
+            return ObjEq(id(rec))
         if self.kind.startswith("deco_"):
             return _deco({"positional": positional, "name_kw": name_kw, "all_kw": all_kw}[self.kind[5:]])
         return {"positional": positional, "name_kw": name_kw, "all_kw": all_kw, "var_kw": var_kw, "object": Obj(), "argindex_kw": argindex_kw}[self.kind]
@@ -86,7 +100,7 @@ def expected_kwargs(kind, op, idx):
         kind = kind[5:]
     if kind == "positional":
         return {}
-    if kind in ("name_kw", "object"):
+    if kind in ("name_kw", "object", "object_unhashable"):
         return {"name": op}
     if kind == "argindex_kw":
         return {"arg_index": idx}
